@@ -97,9 +97,20 @@ def run(tier):
             ref_ops = [dict(ref_ops[0])] + [dict(op, variant="full")]
             per.append((orc, task_id(ref_ops), cls, cfg))
         plan.append((bid, per))
+    reg = registry.registry()
+    btasks = []
+    for name, sp in reg.items():
+        if not sp.constructible or sp.cost == "veryslow" or sp.min_n > 1 or name.endswith("CylindricalSandwich"):
+            continue
+        if sp.cost == "slow" and tier == "quick" and not name.startswith(("sedov.sedov", "riemann")):
+            continue
+        btasks.append((name, False, seed))
+        if sp.alt:
+            btasks.append((name, True, seed))
     ctx = mp.get_context("fork")
     with ctx.Pool(min(16, os.cpu_count() or 4), maxtasksperchild=1) as pool:
         results = pool.map(interp._task, tasks, chunksize=1)
+        bres = pool.map(interp.batch_task, btasks, chunksize=1)
     # 4. events
     events, ncalls, nontriv = [], 0, set()
     for tid, (b, (bid, per)) in enumerate(zip(behs, plan), start=1):
@@ -139,6 +150,12 @@ def run(tier):
                 nontriv.add((cls, cfg, op["variant"], op["t"], len([x for x in b[:i] if x["op"] == "Call"])))
             events.append(ev)
         events.append({"tid": tid, "op": "Reset"})
+    binfo = []
+    for br in bres:
+        events.append({"tid": 0, "op": "Batch", "cls": br["cls"], "cfg": br["cfg"], "raised": bool(br["raised"]), "dev": int(br["dev"]),
+                       "grid": br["cls"] in registry.GRID_DEPENDENT or br["cls"].startswith(("sedov.", "radshocks.")), "bid": len(binfo)})
+        binfo.append(br)
+        nontriv.add((br["cls"], br["cfg"], "batch"))
     gen_module(wd, "TraceInterpGen", classes, "TraceInterp", False)
     gen_cfg(wd, "TraceInterpGen.cfg", "TSpec", 0, ["POSTCONDITION Accepted"])
     path = os.path.join(wd, "trace.json")
@@ -155,10 +172,11 @@ def run(tier):
             raise tlc.TLCError("TraceInterp crashed: %s\n%s" % (tres["error"], tres["out"][-2000:]))
     for fl in [j for j in tres["json"] if "failed" in j]:
         e = events[fl["i"] - 1]
-        b = behs[fl["tid"] - 1]
+        b = behs[fl["tid"] - 1] if fl["tid"] > 0 else None
         for clause in fl["failed"]:
             verdict.fail({"cls": e.get("cls"), "clause": clause, "cfg": {"cfg": e.get("cfg"), "variant": e.get("variant")}},
-                         {"behaviour": b, "event": e, "clause": clause})
+                         {"behaviour": b, "event": e, "clause": clause,
+                          "batch": binfo[e["bid"]] if e.get("op") == "Batch" else None})
     rc = verdict.finish()
     cov = {"states": mres.get("distinct", 0) + tres.get("distinct", 0) + gres.get("distinct", 0),
            "transitions": mres.get("states", 0) + tres.get("states", 0) + gres.get("states", 0),
@@ -169,7 +187,7 @@ def run(tier):
                    "depth in the cfg); behaviours over the concrete stateful classes generated by TLC -simulate (seed = VERIF_SEED) and kept when a call is preceded by "
                    "an operation on another object or an earlier call; every behaviour and every oracle runs in its own process forked from a pristine parent; "
                    "distinct = (class, parameter set, request variant, time, number of earlier calls)",
-           "model_states": mres.get("distinct", 0), "behaviours": len(behs), "processes": len(tasks), "calls_compared": ncalls,
+           "model_states": mres.get("distinct", 0), "behaviours": len(behs), "processes": len(tasks), "calls_compared": ncalls, "batch_sweeps": len(bres), "batch_sweeps_raised": sorted({b_["cls"] for b_ in bres if b_["raised"]}),
            "classes": sorted(classes), "known_findings_hit": verdict.known, "exhaustive": False}
     core.write_evidence("C06", tier, "model_checking", cov, time.time() - t0, len(verdict.violations),
                         ["a process forked from a parent that imported exactpack but never constructed a solver is equivalent to a fresh interpreter",
